@@ -476,8 +476,15 @@ func TestSampling(t *testing.T) {
 		s64 := gen.BytesN(rt, "rho64", 64)
 		// kappa is a multiple of l in the scheme; the counter is 16 bits wide, so values above 255 matter
 		kappa := rapid.IntRange(0, 2000).Draw(rt, "kappa_iter") * p.L
-		if rapid.IntRange(0, 3).Draw(rt, "kappa_free") == 0 {
+		switch rapid.IntRange(0, 3).Draw(rt, "kappa_free") {
+		case 0:
 			kappa = rapid.IntRange(0, 65535-p.L).Draw(rt, "kappa")
+		case 1:
+			// the counter kappa+r crosses a multiple of 256 INSIDE the vector (r = 0..l-1): the carry
+			// into the high byte then happens between two polynomials of one call (added after seeded
+			// change C10g, which took the high byte from kappa alone); in the scheme this is iteration
+			// 36 of ML-DSA-87 and 51 of ML-DSA-65, which about one signature in 10^5 reaches
+			kappa = 256*rapid.IntRange(1, 255).Draw(rt, "kappa_carry_block") - rapid.IntRange(1, p.L-1).Draw(rt, "kappa_carry_back")
 		}
 		fp = fp.B(s64).I(int64(kappa))
 		if i, j := vecFirstDiff(vecToRef(imldsa.VerifExpandMask(ps.tk, arr64(s64), kappa)), mldsaref.ExpandMask(p, s64, kappa)); i != -1 {
